@@ -176,8 +176,8 @@ impl Monitor for C08 {
         self.directed(t)
             + match t {
                 Tier::Tiny => 20,
-                Tier::Quick => 20_000,
-                Tier::Thorough => 300_000,
+                Tier::Quick => 800000,
+                Tier::Thorough => 8000000,
             }
     }
     fn rule(&self) -> &'static str {
